@@ -257,6 +257,41 @@ def aggregate_fields(ctx, rid, key, adt, table, rule="T1", must_exist=True, fami
     return found
 
 
+def condition_switches(fd, sw, depth=0):
+    """the switch `sw` together with the switches that compute its condition when that is a bool local assembled by
+    short-circuit `&&` / `||` (assigned in several blocks that all flow into sw's block)"""
+    out = [sw]
+    if depth > 3 or not sw.ops or sw.ops[0].place is None:
+        return out
+    l = sw.ops[0].place.local
+    seen_l = set()
+    for _ in range(4):      # through plain copies
+        ds = [d for d in fd.defs.get(l, ()) if d.kind != "param"]
+        if len(ds) == 1 and ds[0].kind == "assign" and ds[0].instr is not None and ds[0].instr.rv_kind() == "use" \
+                and ds[0].instr.ops and ds[0].instr.ops[0].place is not None and l not in seen_l:
+            seen_l.add(l)
+            l = ds[0].instr.ops[0].place.local
+        else:
+            break
+    ds = [d for d in fd.defs.get(l, ()) if d.kind != "param" and d.instr is not None]
+    if len(ds) < 2:
+        return out
+    cd = fd.cfg.cdep()
+    anc, wl = set(), [d.instr.bb for d in ds]
+    while wl:
+        b = wl.pop()
+        for a in cd.get(b, ()):
+            if a not in anc and a != sw.bb and fd.cfg.postdominates(sw.bb, a):
+                anc.add(a)
+                wl.append(a)
+    for a in sorted(anc):
+        if a in fd.switches:
+            for s2 in condition_switches(fd, fd.switches[a][0], depth + 1):
+                if s2 not in out:
+                    out.append(s2)
+    return out
+
+
 def controlling_sources(fd, ins):
     """for every switch the instruction is (transitively) control dependent on: the call whose result is switched on
     (through discriminant reads, copies and negations), or a description of the condition"""
@@ -272,10 +307,14 @@ def controlling_sources(fd, ins):
                 seen.add(a)
                 anc.append(a)
                 wl.append(a)
+    sws = []
     for a in anc:
         if a not in fd.switches:
             continue
-        sw = fd.switches[a][0]
+        for s2 in condition_switches(fd, fd.switches[a][0]):
+            if s2 not in sws:
+                sws.append(s2)
+    for sw in sws:
         op = sw.ops[0]
         d = direct_def_instr(fd, op)
         guard = 0
@@ -475,7 +514,7 @@ def deep_operand_atoms(an, fd, ins, op, control=False):
     return deep_atoms(an, fd, seeds, control=control)
 
 
-def direct_chain(fd, op, follow=None, limit=14, want_root=False):
+def direct_chain(fd, op, follow=None, limit=14, want_root=False, want_instrs=False):
     """callee names along the *direct* provenance of an operand (flow-sensitive in effect: only single-definition
     locals, references, dereferences and copies are followed; at a call the receiver is followed unless `follow`
     names another argument index for that callee)"""
@@ -497,7 +536,7 @@ def direct_chain(fd, op, follow=None, limit=14, want_root=False):
         if i is None:
             break
         if i.kind == "call":
-            out.append(i.callee or "?")
+            out.append(i if want_instrs else (i.callee or "?"))
             ai = follow.get(i.callee, 0)
             cur = i.args[ai] if ai < len(i.args) else None
         elif i.kind == "assign" and i.rv_kind() in ("use", "cast") and i.ops:
@@ -509,4 +548,29 @@ def direct_chain(fd, op, follow=None, limit=14, want_root=False):
             break
     if want_root:
         return out, (cur.place.local if cur is not None and cur.place is not None else None)
+    return out
+
+
+def hosts(ctx, key, depth=2):
+    """the function `key` and the private helpers it delegates to (same crate, not `pub`, at most `depth` levels), each with
+    its closures: the places where the work of `key` may live after a helper was extracted"""
+    out, seen = [], set()
+    wl = [(key, 0)]
+    crate = key.split("::")[0].lstrip("<")
+    while wl:
+        k, d = wl.pop(0)
+        if k in seen or k not in ctx.prog.bodies:
+            continue
+        seen.add(k)
+        for k2 in ctx.prog.family(k):
+            fd = ctx.fd(k2)
+            if fd is None:
+                continue
+            out.append(fd)
+            if d < depth:
+                for c in fd.body.calls():
+                    ck = c.callee or ""
+                    sg = ctx.prog.sigs.get(ck)
+                    if sg is not None and not sg.get("pub") and ck.split("::")[0].lstrip("<") == crate and ck not in seen:
+                        wl.append((ck, d + 1))
     return out
